@@ -428,14 +428,21 @@ struct StringStream {
         constexpr SizeT size = sizeof(Char_T);
         Char_T         *str  = Storage();
 
+#ifdef HANIAMMAR_QENTEM_ENGINE_VERIF
+        // Verification hook: exact-fit growth.
+        allocate(new_capacity);
+#else
         allocate(new_capacity * SizeT{4});
+#endif
 
         Memory::Copy(Storage(), str, (Length() * size));
         Memory::Deallocate(str);
     }
 
     void allocate(SizeT size) {
+#ifndef HANIAMMAR_QENTEM_ENGINE_VERIF
         size = Memory::AlignSize(size);
+#endif
 
         setStorage(Memory::Allocate<Char_T>(size));
 
